@@ -363,6 +363,18 @@ func runSkippers(b []byte, t int8, full bool, shapes int) []skipRes {
 		})
 		out = append(out, r)
 	}
+	// 6. the exported template over somebody else's SkipDecoderIface: SkipN hands out one scratch window that it
+	// OVERWRITES on the next call (the interface allows it: the template does not hold bytes between two SkipN calls)
+	{
+		r := skipRes{Impl: "tpl-foreign-scratch", Shape: "slice", Ret: true}
+		protect(&r, func() {
+			sk := &scratchSkipper{in: b}
+			err := thrift.NewSkipDecoderTpl(sk).Skip(thrift.TType(t), 64)
+			r.Ok, r.N, r.Used, r.Tid = err == nil, sk.pos, sk.pos, tidOf(err)
+			r.SrcErr = errors.Is(err, io.EOF)
+		})
+		out = append(out, r)
+	}
 	// ... and on a live connection: the bytes of the value have arrived, what follows has not.  A skipper that asks its
 	// source for more than the value needs would block there (here the request is answered with an error and counted)
 	if n0 := out[0].N; out[0].Ok && n0 > 0 && n0 <= len(b) {
@@ -477,6 +489,30 @@ func burnPark(d int, ready chan<- int, gate <-chan int) int {
 		return int(pad[0])
 	}
 	return burnPark(d-1, ready, gate) + int(pad[d%256])
+}
+
+// scratchSkipper: a SkipDecoderIface that copies the next n bytes of its input into ONE scratch buffer and returns that
+// (what an implementation over a ring buffer or a cgo reader does)
+type scratchSkipper struct {
+	in      []byte
+	pos     int
+	scratch []byte
+}
+
+func (s *scratchSkipper) SkipN(n int) ([]byte, error) {
+	if n < 0 || n > len(s.in)-s.pos {
+		return nil, io.EOF
+	}
+	if cap(s.scratch) < n {
+		s.scratch = make([]byte, 0, n+64)
+	}
+	for i := range s.scratch[:cap(s.scratch)] { // the previous window is gone
+		s.scratch[:cap(s.scratch)][i] = 0xDD
+	}
+	s.scratch = s.scratch[:n]
+	copy(s.scratch, s.in[s.pos:s.pos+n])
+	s.pos += n
+	return s.scratch, nil
 }
 
 // connSource: an io.Reader with the extra methods of a connection / buffered stream
